@@ -467,6 +467,16 @@ def e2e_case(rng):
                     rng.randrange(1024, 65536), rng.choice((443, 53, 4433)), pl)
         return sp
 
+    def corrupt_bad(sp):
+        """a damaged copy whose transport checksum is BAD for the independent receiver. Damage that makes the packet
+        malformed instead (e.g. a UDP length field that no longer fits the IP payload: verdict None, neither good nor
+        bad) is outside the property's dichotomy and is not put into end-to-end captures."""
+        for _ in range(20):
+            f = corrupt(rng, sp)
+            if W.receiver_verdict(f) == "invalid":
+                return f
+        return W.build(sp)
+
     flows = list(conn.frames)
     quic = rng.random() < 0.6
     if quic:                                            # a QUIC v1 connection next to it (UDP, IPv4 or IPv6)
@@ -482,15 +492,15 @@ def e2e_case(rng):
     for sp in flows:
         r = rng.random()
         if r < 0.35:                                   # a corrupted copy arrives first, the retransmission is good
-            frames.append((sp.ts - 0.0004, corrupt(rng, sp)))
+            frames.append((sp.ts - 0.0004, corrupt_bad(sp)))
             frames.append((sp.ts, W.build(sp)))
         elif r < 0.37:                                 # only a corrupted copy exists (rare: leaves a gap)
-            frames.append((sp.ts, corrupt(rng, sp)))
+            frames.append((sp.ts, corrupt_bad(sp)))
         else:
             frames.append((sp.ts, W.build(sp)))
         if rng.random() < 0.3:
             b = bystander()
-            frames.append((sp.ts + 0.0002, corrupt(rng, b) if rng.random() < 0.4 else W.build(b)))
+            frames.append((sp.ts + 0.0002, corrupt_bad(b) if rng.random() < 0.4 else W.build(b)))
     return {"version": ver, "v6": v6, "quic": quic, "keylog": keylog, "frames": frames}
 
 
@@ -498,8 +508,8 @@ def run_e2e_case(ctx, case, tmp):
     orc = ctx.oracle.setdefault("end-to-end", {"runs": 0, "violations": 0, "reference-crashed": 0})
     frames = case["frames"]
     verdicts = [W.receiver_verdict(f) for _, f in frames]
-    if any(v == "nochecksum" for v in verdicts):
-        return                                          # outside the property's dichotomy
+    if any(v == "nochecksum" or v is None for v in verdicts):
+        return                                          # outside the property's dichotomy (no checksum / malformed)
     kept = [(ts, f) for (ts, f), v in zip(frames, verdicts) if v != "invalid"]
     pa, pb, kl = (os.path.join(tmp, n) for n in ("all.pcapng", "good.pcapng", "keys.log"))
     oa, ob = os.path.join(tmp, "out_c.pcapng"), os.path.join(tmp, "out_ref.pcapng")
